@@ -73,7 +73,7 @@ ClauseAt(env, S, evs, obs, j) ==
         exp == { Proj(env, o) : o \in PossibleOuts(env, S, ev) }
     IN IF ev.op = "override" THEN "OverrideBeforeUse"
        ELSE IF ev.op = "sub" /\ env.cross /\ \E o \in Machines \ {m} :
-                                s.sub[o][ev.names[1]] = "failed" /\ s.sub[m][ev.names[1]] = "unconfigured"
+                                s.sub[o][ev.names[1]] = "failed" /\ s.sub[m][ev.names[1]] # "failed"
             THEN "SubprojectsPerMachine"
        ELSE IF ev.op = "sub" THEN "SubprojectCall"
        ELSE IF ~(got.kind \in {"found", "notfound", "disabler", "error"}) THEN "Observation"
@@ -93,7 +93,7 @@ ClauseAt(env, S, evs, obs, j) ==
        ELSE IF env.wm = "nofallback" /\ (\A k \in 1..Len(ev.names) : ~Forced(env, ev.names[k])) /\ got.sub # SubObs(env, s)
             THEN "NofallbackNeverConfigures"
        ELSE IF env.cross /\ \E k \in 1..Len(ev.names) : \E o \in Machines \ {m} :
-                               s.sub[o][ev.names[k]] = "failed" /\ s.sub[m][ev.names[k]] = "unconfigured"
+                               s.sub[o][ev.names[k]] = "failed" /\ s.sub[m][ev.names[k]] # "failed"
             THEN "SubprojectsPerMachine"
        ELSE IF j > 1 /\ evs[j - 1] = ev /\ obs[j - 1].kind = "found" /\ ResOf(obs[j - 1]) # ResOf(got) THEN "CacheStable"
        ELSE IF got.src \in {"src_root", "src_sd"} /\ got.src # (IF ev.site = "root" THEN "src_root" ELSE "src_sd")
